@@ -648,6 +648,72 @@ let c04 ic =
     | _ -> failwith ("c04: bad line " ^ line)
   done with End_of_file -> ())
 
+(* ---------------- C07: the rewrite model on abstracted guest modules ---------------- *)
+let ascii_of_char (c : char) : Ascii.ascii =
+  let v = Char.code c in let b k = (v lsr k) land 1 = 1 in Ascii.Ascii (b 0, b 1, b 2, b 3, b 4, b 5, b 6, b 7)
+let coq_of_string (s : string) : String.string =
+  let r = ref String.EmptyString in
+  for i = St.length s - 1 downto 0 do r := String.String (ascii_of_char (St.get s i), !r) done; !r
+let str_of_hex h = let l = bytes_of_hex h in let b = Buffer.create 16 in L.iter (fun c -> Buffer.add_char b (Char.chr c)) l; Buffer.contents b
+let hex_of_str s = if s = "" then "-" else St.concat "" (L.init (St.length s) (fun i -> Printf.sprintf "%02x" (Char.code (St.get s i))))
+
+let c07 ic =
+  let open RewriteTypes in
+  let vt = function "i32" -> AbiTypes.TI32 | "i64" -> AbiTypes.TI64 | "f32" -> AbiTypes.TF32 | "f64" -> AbiTypes.TF64 | x -> failwith ("c07: type " ^ x) in
+  let tv = function AbiTypes.TI32 -> "i32" | AbiTypes.TI64 -> "i64" | AbiTypes.TF32 -> "f32" | AbiTypes.TF64 -> "f64" in
+  let tys s = if s = "" then [] else L.map vt (St.split_on_char ',' s) in
+  let id = ref 0 and imps = ref [] and own = ref 0 and locals = ref 0 in
+  let flush () =
+    (* ids as walrus assigns them: imported functions / memories in import order, then the defined ones *)
+    let nf = ref 0 and nm = ref 0 in
+    let funcs = ref [] and mems = ref [] in
+    let imports = L.map (fun (md, nm_, k) ->
+      let kind = (match k with
+        | `F (p, r) -> let fid = n_of_int !nf in incr nf; funcs := { f_id = fid; f_sig = (p, r); f_kind = FImported } :: !funcs; KFunc fid
+        | `M -> let mid = n_of_int !nm in incr nm; mems := { m_id = mid; m_imported = true } :: !mems; KMem mid
+        | `O t -> KOther (n_of_int t)) in
+      { i_mod = coq_of_string md; i_name = coq_of_string nm_; i_kind = kind }) (L.rev !imps) in
+    for _ = 1 to !locals do funcs := { f_id = n_of_int !nf; f_sig = ([], []); f_kind = FOwn } :: !funcs; incr nf done;
+    for _ = 1 to !own do mems := { m_id = n_of_int !nm; m_imported = false } :: !mems; incr nm done;
+    let m = { imports = imports; funcs = L.rev !funcs; mems = L.rev !mems; next_func = n_of_int !nf; next_mem = n_of_int !nm; rest = N0 } in
+    let sig_of_fid (m' : coq_module) fid = (match L.find_opt (fun f -> f.f_id = fid) m'.funcs with Some f -> f.f_sig | None -> ([], [])) in
+    let show_imp m' (i : import) =
+      Printf.sprintf "%s/%s/%s" (hex_of_str (string_of_coq i.i_mod)) (hex_of_str (string_of_coq i.i_name))
+        (match i.i_kind with
+         | KFunc fid -> let (p, r) = sig_of_fid m' fid in "F" ^ St.concat "," (L.map tv p) ^ ":" ^ St.concat "," (L.map tv r)
+         | KMem _ -> "M" | KOther t -> (match int_of_n t with 0 -> "T" | 1 -> "G" | _ -> "X")) in
+    let show_imports m' l = if l = [] then "-" else St.concat "," (L.map (show_imp m') l) in
+    (match RewriteInst.tool m with
+     | Ok m' ->
+         let gens = L.length (L.filter (fun f -> match f.f_kind with FGen _ -> true | _ -> false) m'.funcs) in
+         Printf.printf "M %d V=ACCEPT IMPORTS=%s NEWLOCALS=%d\n" !id (show_imports m' m'.imports) gens
+     | Err e ->
+         Printf.printf "M %d V=REJECT %s\n" !id (match e with
+           | EMultiMem -> "multimem" | EUnexpected n -> "unexpected:" ^ hex_of_str (string_of_coq n) | EUnsupported n -> "unsupported:" ^ hex_of_str (string_of_coq n)
+           | EParams n -> "params:" ^ string_of_coq n | EResults n -> "results:" ^ string_of_coq n | ENotFunc -> "notfunc" | EInternal -> "internal" | EFuel -> "fuel"));
+    Printf.printf "S %d %s PREFIX=%s\n" !id (match RewriteInst.spec m with
+      | RewriteSpec.VUnchanged -> "UNCHANGED" | RewriteSpec.VAccept -> "ACCEPT" | RewriteSpec.VReject -> "REJECT" | RewriteSpec.VEither -> "EITHER")
+      (show_imports m (RewriteInst.spec_imports m)) in
+  (try while true do
+    let line = input_line ic in
+    match split line with
+    | "CASE" :: k :: _ -> id := int_of_string k; imps := []; own := 0; locals := 0
+    | ["IMP"; t] ->
+        (match St.split_on_char '/' t with
+         | [m; n; k] ->
+             let kind = (match St.get k 0 with
+               | 'F' -> (match St.split_on_char ':' (St.sub k 1 (St.length k - 1)) with [p; r] -> `F (tys p, tys r) | _ -> failwith "c07: sig")
+               | 'M' -> `M | 'T' -> `O 0 | 'G' -> `O 1 | _ -> `O 2) in
+             imps := (str_of_hex m, str_of_hex n, kind) :: !imps
+         | _ -> failwith ("c07: bad import " ^ t))
+    | ["OWNMEM"; n] -> own := int_of_string n
+    | ["LOCALS"; n] -> locals := int_of_string n
+    | "WAT" :: _ -> ()
+    | ["END"] -> flush ()
+    | [] -> ()
+    | _ -> failwith ("c07: bad line " ^ line)
+  done with End_of_file -> ())
+
 let () =
   let comp = Sys.argv.(1) in
   let ic = if Array.length Sys.argv > 2 then open_in Sys.argv.(2) else stdin in
@@ -658,6 +724,7 @@ let () =
   | "c12" | "c13" | "c14" -> ctxrun ic
   | "c09" -> c09 ic
   | "c04" -> c04 ic
+  | "c07" -> c07 ic
   | "c05" -> c05 ic
   | "c06" -> c06 ic
   | "c10" -> c10 ic
